@@ -106,6 +106,7 @@ var c12Ctx = []string{
 }
 
 func runC12(c *ctx) {
+	stmtC12(c)
 	c.rep.Rule = "blocks, nested blocks, assignments, lambdas of 0..3 parameters (nested, returned, passed to higher-order built-ins, recursive), " +
 		"every signature built from the type letters, unions, array subtypes and ? + - options against argument lists of every kind and length 0..4, " +
 		"placeholders in every position, chains mixing values, calls, bare functions and partials, context-defaulting built-ins nested in each other's " +
